@@ -1,6 +1,7 @@
 (* C04 — endpoints sent inside messages keep their identity, position and backlog. *)
 From Coq Require Import List Arith ZArith Bool Permutation.
 From IPC Require Import Codec CodecProofs Wire K KProofs Prog Ideal IdealProofs.
+From IPC Require K Prog Ideal Api ApiProofs ApiInv ApiSelect ApiUnique.
 Import ListNotations.
 Local Open Scope nat_scope.
 
@@ -53,3 +54,21 @@ Example C04_ex :
   snd (i_run i_init [ONew; ONew; ONew; OSend 0 11 []; OSend 2 1 [ARx 1]; OSend 0 12 []; ORecv 3; OSend 4 2 [ARx 6]; ORecv 5; ORecv 7; ORecv 7; OSend 0 13 []; ORecv 7; ORecv 1])
   = [RNew 0 1; RNew 2 3; RNew 4 5; RSent; RSent; RSent; RMsg 1 [(KRx, 6)]; RSent; RMsg 2 [(KRx, 7)]; RMsg 11 []; RMsg 12 []; RSent; RMsg 13 []; RBad].
 Proof. vm_compute. reflexivity. Qed.
+
+(* ---- whole-API level (model: Api.v): a receiving end exists ONCE ---- *)
+Module ApiLevel.
+Import K Prog Ideal Api ApiProofs ApiInv ApiSelect ApiUnique.
+Local Open Scope nat_scope.
+
+(* after any program over the whole API (channels, regions, sets, servers, failing sends, undecodable messages) every receiving end
+   is referenced at most once - by the process or by a message in flight: a receiver that was sent away is gone from the handle it
+   was sent from, and whoever unpacks it holds the only one *)
+Theorem C04_api_receiver_exists_once : forall ops c, refs (ak (fst (a_run a_init ops))) (RR c) <= 1.
+Proof. intros ops c. exact (rr_once_run ops c). Qed.
+Print Assumptions C04_api_receiver_exists_once.
+
+Theorem C04_api_receivers_unique : forall ops c,
+  count_occ ref_dec (ahandle_refs (ah (fst (a_run a_init ops)))) (RR c) <= 1.
+Proof. exact receivers_unique. Qed.
+Print Assumptions C04_api_receivers_unique.
+End ApiLevel.
